@@ -709,7 +709,7 @@ def _simplify_comparison(phi: HplBinaryOperator) -> HplExpression:
     b: HplExpression = phi.operand2
     if isinstance(a, HplLiteral) and isinstance(b, HplLiteral):
         if op.is_equality:
-            return HplLiteral.boolean(a.value == b.value)
+            return HplLiteral.boolean(_literal_value(a) == _literal_value(b))
         if op.is_less_than:
             return HplLiteral.boolean(a.value < b.value)
         if op.is_less_than_eq:
@@ -719,7 +719,7 @@ def _simplify_comparison(phi: HplBinaryOperator) -> HplExpression:
         if op.is_greater_than_eq:
             return HplLiteral.boolean(a.value >= b.value)
         assert op.is_inequality
-        return HplLiteral.boolean(a.value != b.value)
+        return HplLiteral.boolean(_literal_value(a) != _literal_value(b))
     if _obviously_different(a, b):
         if op.is_equality:
             return false()
@@ -855,22 +855,22 @@ def _simplify_function_call(call: HplFunctionCall) -> HplExpression:
     elif fun.name == 'bool':
         arg: HplExpression = _simplify(call.arguments[0])
         if isinstance(arg, HplLiteral):
-            return HplLiteral.boolean(bool(arg.value))
+            return HplLiteral.boolean(bool(_literal_value(arg)))
 
     elif fun.name == 'int':
         arg: HplExpression = _simplify(call.arguments[0])
         if isinstance(arg, HplLiteral):
-            return HplLiteral.number(int(arg.value))
+            return HplLiteral.number(int(_literal_value(arg)))
 
     elif fun.name == 'float':
         arg: HplExpression = _simplify(call.arguments[0])
         if isinstance(arg, HplLiteral):
-            return HplLiteral.number(float(arg.value))
+            return HplLiteral.number(float(_literal_value(arg)))
 
     elif fun.name == 'str':
         arg: HplExpression = _simplify(call.arguments[0])
         if isinstance(arg, HplLiteral):
-            return HplLiteral.string(str(arg.value))
+            return _string_literal(str(_literal_value(arg)))
 
     elif fun.name == 'len':
         arg: HplExpression = _simplify(call.arguments[0])
@@ -885,7 +885,7 @@ def _simplify_function_call(call: HplFunctionCall) -> HplExpression:
                     n -= 1
                 return HplLiteral.number(max(n, 0))
         elif isinstance(arg, HplLiteral) and isinstance(arg.value, str):
-            return HplLiteral.number(len(arg.value))
+            return HplLiteral.number(len(_literal_value(arg)))
 
     elif fun.name == 'sum':
         return _simplify_function_sum(call)
@@ -1236,6 +1236,20 @@ def inverse_operator(op: BinaryOperatorDefinition) -> BinaryOperatorDefinition:
     if inverse is None:
         raise ValueError(f'operator {op!r} does not have an inverse')
     return inverse
+
+
+def _literal_value(expr: HplLiteral) -> Union[bool, int, float, str]:
+    # string literals keep their quotes, e.g., value == '"text"'
+    value = expr.value
+    if isinstance(value, str) and len(value) >= 2 and value[0] == '"' and value[-1] == '"':
+        return value[1:-1]
+    return value
+
+
+def _string_literal(text: str) -> HplLiteral:
+    # same representation as a string literal coming from the parser
+    token = f'"{text}"'
+    return HplLiteral(token, token)
 
 
 def true() -> HplLiteral:
